@@ -551,7 +551,21 @@ C09_ReportedPhenology == (IsOut("out.crop") /\ Has(Ev, "emerg") /\ outs.ccount <
    /\ (StageDoy(a, 2) >= 0 => Ev.emerg = StageDoy(a, 2))
    /\ (StageDoy(a, 5) >= 0 => Ev.anth = StageDoy(a, 5))
    /\ (StageDoy(a, 6) >= 0 => Ev.mat = StageDoy(a, 6))
-C09_All == C09_NonNeg /\ C09_Stress /\ C09_RootDepth /\ C09_StageMonotone /\ C09_StageDay /\ C09_ReportedPhenology
+\* reported phenology is ordered: sowing <= emergence <= anthesis <= maturity <= harvest.  The crop record carries days of
+\* the year; they are placed on the calendar one after the other starting from the sowing day of this crop (each one
+\* on the first day not before its predecessor that has this day of the year; 0 = not reached, skipped): the chain
+\* must end not after the harvest day
+FirstWithDoy(t, d) == LET y == YearOfN(t)  a == Jan1(y).n + d - 1 IN IF a >= t THEN a ELSE Jan1(y + 1).n + d - 1
+RECURSIVE Chain(_, _)
+Chain(t, ds) == IF ds = <<>> THEN t ELSE IF Head(ds) <= 0 THEN Chain(t, Tail(ds)) ELSE Chain(FirstWithDoy(t, Head(ds)), Tail(ds))
+SowOf(a) == LET S == {i \in 1..Len(hist.sow) : hist.sow[i][2] = a} IN IF S = {} THEN 0 ELSE hist.sow[CHOOSE i \in S : \A j \in S : j <= i][1]
+C09_PhenologyOrder == (IsOut("out.crop") /\ Has(Ev, "emerg") /\ outs.ccount <= Len(hist.harv) /\ Ev.hyear > 0) =>
+   LET a == hist.harv[outs.ccount][2]  hz == hist.harv[outs.ccount][1]  sz == SowOf(a) IN
+   (sz > 0 /\ ~Has(Ev, "perennial")) =>
+      /\ Ev.sowdoy = DateOfN(sz).doy
+      /\ Ev.hdoy = DateOfN(hz).doy
+      /\ Chain(sz, <<Ev.emerg, Ev.anth, Ev.mat>>) <= hz
+C09_All == C09_PhenologyOrder /\ C09_NonNeg /\ C09_Stress /\ C09_RootDepth /\ C09_StageMonotone /\ C09_StageDay /\ C09_ReportedPhenology
 
 \* =============================================================================================
 \* C16  rotation followed; automatic management inside its windows
